@@ -122,6 +122,13 @@ Definition eval_can_process : list instr :=
 Definition dispatch_all (t : nat) (sh : qshared) (es : list cevt) : qshared :=
   fold_left (fun s e => sh_disp s t e) es sh.
 
+(* processUntil: the events before the first one the predicate accepts are dispatched, the rest stay *)
+Fixpoint split_until (p : nat) (l : list cevt) : list cevt * list cevt :=
+  match l with
+  | [] => ([], [])
+  | e :: r => if pverdict p e then ([], e :: r) else let '(a, b) := split_until p r in (e :: a, b)
+  end.
+
 (* ---------- the API calls, transcribed from eventqueue.h ---------- *)
 
 Definition code_of (c : qapi) : list instr :=
@@ -191,12 +198,7 @@ Definition code_of (c : qapi) : list instr :=
             IUnlock QM;
             IIf [] (fun _ lo => nonempty (ltemp lo))
                 [ILocal [] (fun t sh lo =>
-                              let fix split (l : list cevt) : list cevt * list cevt :=
-                                match l with
-                                | [] => ([], [])
-                                | e :: r => if pverdict p e then ([], e :: r) else let '(a, b) := split r in (e :: a, b)
-                                end in
-                              let '(yes, no) := split (ltemp lo) in
+                              let '(yes, no) := split_until p (ltemp lo) in
                               (dispatch_all t sh yes, lo_idle (lo_temp lo no) (length yes)));
                  IIf [] (fun _ lo => nonempty (ltemp lo))
                      [ILock QM; ILocal [RQ] (fun _ sh lo => (sh_ql sh (ltemp lo ++ ql sh), lo_temp lo [])); IUnlock QM] [];
